@@ -53,6 +53,11 @@ claimed = {
   note="narrow reading of un-listing (DESIGN C10); delete-during-in-flight-snapshot and tsi1 lingering tag values are listed known findings",
   technique=SIM + ": operation-level seeded schedule with window-level yields, LWW+listing reference model",
   ref="3 C10"),
+ "C11": dict(
+  text="One run draws a data set (1-28 points of two measurements, tags a,b, float/integer/string/boolean fields, timestamps clustered around hour boundaries, later overwrites), one statement of the covered grammar (raw field or count/sum/mean/min/max/first/last/spread/median; optional time bounds and tag predicate; GROUP BY time(interval[,offset]) and tags; fill none/null/number/previous/linear; ORDER BY time DESC; LIMIT/OFFSET/SLIMIT/SOFFSET) and two write/storage histories. The statement is evaluated (R) by a reference evaluator written for this check over the logical points, (0) on one node with one shard and everything in the cache, (A) on one node with a drawn shard-group duration (1/2/4 h), drawn write batches and cache snapshots / full compactions of drawn shard subsets between them, inmem or tsi1, (B) on a cluster of 2-3 real nodes (drawn replication and coordinator, remote iterators over the simulated network) with another drawn history. (0), (A), (B) must be string-equal; (0) must equal (R).",
+  note="float values are multiples of 1/8 so sums are exact in any order; within a measurement a timestamp belongs to one series (ties between series are unspecified); numeric and linear fills only on numeric columns; linear-fill values are compared with 1e-9 relative tolerance against the reference (exactly between layouts); fill(previous/linear) under ORDER BY time DESC is taken to look at the rows already emitted, as the engine does; subqueries, regex sources, multiple fields per statement, GROUP BY * and functions outside the listed nine are not generated; SLIMIT/SOFFSET per shard is a listed known finding and such statements are not held against the reference",
+  technique=SIM + ": seeded data/statement/layout generation, reference evaluator, three physical layouts incl. an in-process cluster on the simulated network",
+  ref="3 C11"),
  "C13": dict(
   text="Torn-log clause: a WAL segment written by the real WAL from seeded entries is cut at every byte offset (sampled when long), optionally zero-filled from an entry boundary, and replayed twice by the real CacheLoader; the cache must equal the model of the complete entries, the file must be truncated to the last complete entry. The block-codec clause is exercised only through the storage workloads of C02/C09 (a pure function; not searched here).",
   note="bit flips inside entries are not modelled (the log has no checksum)",
